@@ -16,14 +16,15 @@ pub fn run_h264(run: &mut Run, pkts: &[Pk], nt: bool) {
     let input = pkts.iter().map(pk_text).collect::<Vec<_>>().join(" ");
     let total: usize = pkts.iter().map(|p| p.payload.len()).sum();
     let ps = pkts.to_vec();
-    exec(run, "h264", &input, "H264Depacketizer::push", nt, Some((600, 4096 * pkts.len() as u64 + 4096, total as u64)), move || {
+    exec(run, "h264", &input, "H264Depacketizer::push", nt, Some((258, 1024 * pkts.len() as u64, total as u64)), move || {
         let mut d = H264Depacketizer::new();
         let mut out = vec![];
-        for p in &ps {
-            let mut h = RtpHeader::new(96, p.seq, p.ts, 77);
-            h.marker = p.marker;
-            let pkt = RtpPacket::new(h, p.payload.clone());
-            let samples = d.push(pkt, 90000, "127.0.0.1:9".parse().unwrap(), MediaKind::Video).expect("push returns Ok");
+        let pkts: Vec<RtpPacket> = ps.iter().map(|p| { let mut h = RtpHeader::new(96, p.seq, p.ts, 77); h.marker = p.marker; RtpPacket::new(h, p.payload.clone()) }).collect();
+        let mut results = Vec::with_capacity(pkts.len());
+        super::start_alloc();
+        for pkt in pkts { results.push(d.push(pkt, 90000, "127.0.0.1:9".parse().unwrap(), MediaKind::Video).expect("push returns Ok")); }
+        super::mark_alloc();
+        for samples in results {
             let s: Vec<String> = samples.iter().map(|s| match s {
                 MediaSample::Video(v) if v.raw_packet.as_ref().map_or(false, |r| r.payload.is_empty()) && v.data.is_empty() => format!("0/7/{}/2", v.rtp_timestamp),
                 MediaSample::Video(v) => format!("{}/{}/{}/{}", v.data.len(), fold(&v.data), v.rtp_timestamp, v.is_last_packet as u8),
@@ -32,6 +33,58 @@ pub fn run_h264(run: &mut Run, pkts: &[Pk], nt: bool) {
         }
         format!("ok {}", out.join(" "))
     });
+}
+
+/// oracle-only stream `mediaflood`: memory RETAINED by the media-side reassembly state after a flood.
+/// kind 0: an FU-A start followed by `count` continuation fragments that never end (`fua_buffer`); kind 1: `count` samples with
+/// hostile sequence numbers / timestamps pushed into a `JitterBuffer` of capacity 64 and never popped; kind 2: the same with pops.
+/// Oracle: retained ≤ 16·bytes received + 64 KiB; every call returns (no panic, deadline).
+pub fn run_mediaflood(run: &mut Run, kind: u8, count: u32, size: usize, seed: u64) {
+    let case = format!("mediaflood {kind} {count} {size} {seed}");
+    let mut bytes_in = 0u64;
+    let r = crate::catch(move || {
+        let mut rng = Rng::new(seed);
+        let mut bytes = 0u64;
+        super::alloc_reset();
+        let retained;
+        if kind == 0 {
+            let mut d = H264Depacketizer::new();
+            for k in 0..=count {
+                let mut p = vec![28u8 | 0x60, if k == 0 { 0x80 | 5 } else { 5 }]; p.extend(std::iter::repeat(0xAB).take(size));
+                bytes += p.len() as u64 + 12;
+                let h = RtpHeader::new(96, 1000u16.wrapping_add(k as u16), 90_000, 77);
+                let _ = d.push(RtpPacket::new(h, p), 90000, "127.0.0.1:9".parse().unwrap(), MediaKind::Video);
+            }
+            retained = super::alloc_retained().max(0) as u64;
+            drop(d);
+        } else {
+            let mut jb = rustrtc::media::jitter_buffer::JitterBuffer::new(std::time::Duration::from_millis(20), std::time::Duration::from_millis(200), 64);
+            for k in 0..count {
+                let seq = match rng.below(6) { 0 => rng.next() as u16, 1 => (k as u16).wrapping_add(0x8000), 2 => 0, _ => k as u16 };
+                let ts = match rng.below(5) { 0 => rng.next() as u32, 1 => 0xFFFF_FFFF, _ => k.wrapping_mul(160) };
+                let mut h = RtpHeader::new(0, seq, ts, if rng.chance(1, 50) { rng.next() as u32 } else { 9 }); h.marker = rng.chance(1, 20);
+                let pkt = RtpPacket::new(h, vec![0x11; size]);
+                bytes += size as u64 + 12;
+                let f = rustrtc::media::frame::AudioFrame { rtp_timestamp: ts, clock_rate: *rng.pick(&[0u32, 8000, 48000, 1]), data: bytes::Bytes::from(vec![0x11u8; size]),
+                    sequence_number: if rng.chance(1, 40) { None } else { Some(seq) }, payload_type: Some(0), marker: pkt.header.marker, header_extension: None, source_addr: None, raw_packet: Some(pkt) };
+                jb.push(MediaSample::Audio(f));
+                if kind == 2 && rng.chance(1, 3) { let _ = jb.pop(); let _ = jb.next_pop_wait(); let _ = jb.awaiting_next(); }
+            }
+            retained = super::alloc_retained().max(0) as u64;
+            drop(jb);
+        }
+        (bytes, retained)
+    });
+    match r {
+        Ok((b, retained)) => { bytes_in = b;
+            run.count_n(&format!("mediaflood:retained_per_input_byte_x100:{kind}:{size}"), retained * 100 / bytes_in.max(1));
+            if retained > 16 * bytes_in + 65536 { run.fail(&format!("retain:{}", ["H264Depacketizer::push:endless-fu-a", "JitterBuffer::push", "JitterBuffer::push"][kind.min(2) as usize]), &case, &format!("{retained} bytes retained after {count} packets ({bytes_in} bytes)")); }
+            // a bounded buffer must stay bounded: the jitter buffer has a capacity of 64 samples
+            if kind >= 1 && retained > 64 * (size as u64 + 1024) + 65536 { run.fail("retain:JitterBuffer::push:beyond-capacity", &case, &format!("{retained} bytes retained by a jitter buffer of capacity 64 after {count} samples of {size} bytes")); } }
+        Err(msg) => run.fail(&format!("panic:{}:{}", if kind == 0 { "H264Depacketizer::push" } else { "JitterBuffer::push" }, super::panic_site(&msg)), &case, &msg),
+    }
+    let _ = bytes_in;
+    run.case("mediaflood", &format!("{kind} {count} {size} {seed}"), "noncompared", true);
 }
 
 fn stap(rng: &mut Rng) -> Vec<u8> {
@@ -84,11 +137,16 @@ impl LiveUdptl {
 pub fn run_udptl(run: &mut Run, live: &LiveUdptl, dgram: &[u8], nt: bool) {
     let d = dgram.to_vec();
     let l = std::panic::AssertUnwindSafe(live);
-    exec(run, "udptl", &hex(dgram), "UdtlTransport::recv", nt, Some((17, 4096, dgram.len() as u64)), move || {
+    // the receive buffer is 1400 bytes: a longer datagram is truncated by the socket before the parser sees it
+    let seen = &dgram[..dgram.len().min(1400)];
+    exec(run, "udptl", &hex(seen), "UdtlTransport::recv", nt, Some((17, 1400, seen.len() as u64)), move || {
         l.rt.block_on(async {
             l.tx.send_to(&d, l.dst).await.expect("loopback send");
             let mut rb = rustrtc::UdtlReceiveBuffer::new();
-            match l.t.recv(&mut rb).await { Ok(None) => "ok ".to_string(), Ok(Some(p)) => format!("ok {},{}", p.len(), fold(&p)), Err(e) => format!("err {e:?}") }
+            super::start_alloc();
+            let r = l.t.recv(&mut rb).await;
+            super::mark_alloc();
+            match r { Ok(None) => "ok ".to_string(), Ok(Some(p)) => format!("ok {},{}", p.len(), fold(&p)), Err(e) => format!("err {e:?}") }
         })
     });
 }
@@ -135,6 +193,8 @@ fn gen_udptl_history(rng: &mut Rng) -> (u16, u16, Vec<(u16, usize)>) {
 }
 
 pub fn special(run: &mut Run, rng: &mut Rng, thorough: bool) {
+    let n = if thorough { 40_000 } else { 4_000 };
+    for size in [1usize, 1100] { run_mediaflood(run, 0, n, size, 0); for kind in [1u8, 2] { let seed = rng.next(); run_mediaflood(run, kind, n, size, seed); } }
     for _ in 0..(if thorough { 80_000 } else { 4_000 }) { let (m, e, ops) = gen_udptl_history(rng); run_udptlbuf(run, m, e, &ops, true); }
     // H.264: every 1-byte payload, then histories + truncations/mutations of their payloads
     run_h264(run, &[Pk { seq: 1, ts: 2, marker: false, payload: vec![] }], false);
@@ -155,6 +215,15 @@ pub fn special(run: &mut Run, rng: &mut Rng, thorough: bool) {
     let live = LiveUdptl::new();
     run_udptl(run, &live, &[], false);
     for a in 0..=255u8 { run_udptl(run, &live, &[a], false); run_udptl(run, &live, &[0, 1, 0, a], false); }
+    // datagrams around and above the 1400-byte receive buffer (the socket truncates; the model sees the first 1400 bytes)
+    for n in [1396usize, 1398, 1399, 1400, 1401, 1404, 2000] {
+        for fill in [0u8, 0xFF] {
+            let mut v = vec![0u8, 1]; v.extend_from_slice(&((n - 4 - 2) as u16).to_be_bytes()); v.extend(std::iter::repeat(fill).take(n - 4 - 2)); v.extend_from_slice(&[0, 0]);
+            run_udptl(run, &live, &v, true);
+            let mut w = vec![0u8, 1, 0, 2, 9, 9]; while w.len() + 3 <= n { w.extend_from_slice(&[0, 1, 7]); } while w.len() < n { w.push(0); }
+            run_udptl(run, &live, &w, true);
+        }
+    }
     for _ in 0..(if thorough { 30_000 } else { 1_500 }) {
         let v = gen_udptl(rng);
         run_udptl(run, &live, &v, true);
@@ -165,6 +234,7 @@ pub fn special(run: &mut Run, rng: &mut Rng, thorough: bool) {
 
 pub fn replay_special(run: &mut Run, stream: &str, a: &[&str]) -> bool {
     match stream {
+        "mediaflood" if a.len() == 4 => { let p = |s: &str| s.parse::<u64>().unwrap_or(0); run_mediaflood(run, p(a[0]) as u8, p(a[1]) as u32, p(a[2]) as usize, p(a[3])); true }
         "h264" => {
             let pk: Vec<Pk> = a.iter().filter_map(|t| { let f: Vec<&str> = t.split(',').collect(); if f.len() != 4 { return None; }
                 Some(Pk { seq: f[0].parse().ok()?, ts: f[1].parse().ok()?, marker: f[2] == "1", payload: unhex(f[3]) }) }).collect();
